@@ -453,9 +453,9 @@ func (c *c18) Run(cs core.Case) core.Result {
 	}
 	kindsFor := func(ev mon.IOEvent) []string {
 		if ev.Op == "write" {
-			return []string{"error", "write-zero", "write-partial"}
+			return []string{"error", "write-zero", "write-partial", "open-fails"}
 		}
-		return []string{"error"}
+		return []string{"error", "open-fails"}
 	}
 	var plans [][]mon.Fault
 	if !p.Pairs {
@@ -533,6 +533,26 @@ func (c *c18) Run(cs core.Case) core.Result {
 		for _, rp := range out.repaired {
 			if !completed[rp] {
 				r.Violate("repaired-path-without-completed-write|"+p.Op, "%s: RepairedPaths lists %q, whose write did not complete (write events: %v)", desc, filepath.Base(rp), writeSummary(out.events))
+			}
+		}
+		// A write whose open failed inside the real file-system code has
+		// written nothing: its target is exactly what it was.
+		for _, ev := range hit {
+			if ev.Op == "write" && ev.Injected == "open-fails" {
+				rel, _ := filepath.Rel(work, ev.Path)
+				others := 0
+				for _, e2 := range out.events {
+					if e2.Op == "write" && e2.Path == ev.Path && e2.N != ev.N {
+						others++
+					}
+				}
+				if others > 0 {
+					continue
+				}
+				r.Count("failed_write_opens_checked", 1)
+				if pre[rel] != out.snap[rel] {
+					r.Violate("file-altered-although-its-write-open-failed|"+p.Op, "%s: the open-for-writing of %s failed (%s), yet the file changed from %q to %q", desc, rel, ev.Err, pre[rel], out.snap[rel])
+				}
 			}
 		}
 		for _, rp := range out.reports {
